@@ -71,6 +71,9 @@ pub enum DevEvent {
     SetCond(Reg, u16),
     SetBits(Reg, u16),
     ClearBits(Reg, u16),
+    /// device code acknowledges the events itself (`EventRegister::clear_event`)
+    #[serde(alias = "ClearEvent")]
+    ClearEvent(Reg),
 }
 
 #[derive(Clone, Debug, PartialEq, Eq, Hash, Serialize, Deserialize)]
@@ -364,6 +367,13 @@ pub fn run_history(h: &History, scope: Scope, obs: &Obs) -> CheckResult {
                     let c = reg(&mut m, r).cond & !v;
                     reg(&mut m, r).set_condition(c);
                 }
+                DevEvent::ClearEvent(r) => {
+                    match r {
+                        Reg::Oper => dev.operation.clear_event(),
+                        Reg::Ques => dev.questionable.clear_event(),
+                    }
+                    reg(&mut m, r).event = 0;
+                }
             }
         }
         dev.tst = step.tst;
@@ -496,6 +506,20 @@ pub fn run_history(h: &History, scope: Scope, obs: &Obs) -> CheckResult {
                     let sig = if dr.cond != mm.cond && step.units.iter().any(|(u, _)| matches!(u, U::Pres)) { "preset-touches-condition" } else { "register-state" };
                     return Err(Failure::new(sig, format!("step {si} {txt:?}: {name} registers {}, model {}", show_reg(&dr), show_reg(mm))));
                 }
+                // the read accessors device code uses say the same as the fields
+                if d.get_summary() != mm.summary() {
+                    return Err(Failure::new("accessor-summary", format!("step {si} {txt:?}: {name}.get_summary() = {}, registers {}", d.get_summary(), show_reg(&dr))));
+                }
+                for bit in 0..16 {
+                    let mask = 1u16 << bit;
+                    if d.get_condition_bit(mask) != (mm.cond & mask != 0) {
+                        return Err(Failure::new("accessor-condition-bit", format!("step {si} {txt:?}: {name}.get_condition_bit({mask:#06x}) = {}, condition {:#06x}", d.get_condition_bit(mask), mm.cond)));
+                    }
+                }
+                let multi = mm.cond.rotate_left(3) | 0x0101;
+                if d.get_condition_bit(multi) != (mm.cond & multi != 0) {
+                    return Err(Failure::new("accessor-condition-bit", format!("step {si} {txt:?}: {name}.get_condition_bit({multi:#06x}) = {}, condition {:#06x}", d.get_condition_bit(multi), mm.cond)));
+                }
             }
         }
         if scope.status_byte {
@@ -552,6 +576,7 @@ pub fn dev_event() -> impl Strategy<Value = DevEvent> {
         3 => (reg_strategy(), u16_value()).prop_map(|(r, v)| DevEvent::SetCond(r, v)),
         2 => (reg_strategy(), u16_value()).prop_map(|(r, v)| DevEvent::SetBits(r, v)),
         2 => (reg_strategy(), u16_value()).prop_map(|(r, v)| DevEvent::ClearBits(r, v)),
+        1 => reg_strategy().prop_map(DevEvent::ClearEvent),
     ]
 }
 
